@@ -32,7 +32,9 @@ CONSTANTS
   Bug_FlushLevelUnsafe,  \* memtable output pushed below an overlapping level
   Bug_DeletePending,     \* obsolete-file deletion ignores outputs under construction
   Bug_DeletePinned,      \* obsolete-file deletion ignores pinned versions
-  Bug_ImmDropEarly       \* immutable memtable dropped before the new version is installed
+  Bug_ImmDropEarly,      \* immutable memtable dropped before the new version is installed
+  Bug_FlushDeepDuringCompaction \* a memtable flushed while a table compaction runs may be pushed
+                         \* below level 0 (into a gap between the compaction's inputs)
 
 VARIABLES
   nk,        \* number of keys in use (= NK here; set per run in trace validation)
@@ -227,6 +229,9 @@ Rotate ==
 FlushInstall(l) ==
   /\ immOn /\ ~immDone /\ imm # {} /\ ~gcDue
   /\ FlushLevelOK(l, MinI(imm)[1], MaxI(imm)[1])
+  \* a flush from inside the merge loop of a table compaction: the outputs of that compaction are
+  \* not in any version yet, but they will cover the whole range of its inputs, gaps included
+  /\ (comp.on /\ ~Bug_FlushDeepDuringCompaction) => l = 0
   /\ LET no == nextFile + 1  r == MkRec(no, imm) IN
      /\ nextFile' = no
      /\ files' = (no :> imm) @@ files
@@ -269,6 +274,24 @@ CompactPick(l, f) ==
      \E K \in (IF KeepExtra THEN {MustKeep(E, l, small), E} ELSE {MustKeep(E, l, small)}) :
        comp' = [on |-> TRUE, lvl |-> l, in0 |-> {g.no : g \in S0}, in1 |-> {g.no : g \in S1},
                 ver |-> cur, todo |-> K, outs |-> {}]
+  /\ UNCHANGED <<nk, seq, hist, mem, imm, immOn, immDone, immWal, files, cur, pins, snaps, pending, disk,
+                 nextFile, curWal, logWal, nextPin, gcDue>>
+
+\* compact_range(level, lo..hi): EVERY file of the level that overlaps the requested user-key range
+\* (level 0: widened transitively) - the inputs need not be neighbours, so their union can have gaps
+ManualInputs0(l, lo, hi) ==
+  LET T == {f \in LvlSet(cur, l) : UOverlap(f, lo, hi)} IN
+  IF T = {} THEN {} ELSE Boundary(l, IF l = 0 THEN L0Close(T) ELSE T)
+
+CompactPickRange(l, lo, hi) ==
+  /\ ~gcDue /\ ~comp.on /\ l < NL - 1 /\ lo <= hi
+  /\ ManualInputs0(l, lo, hi) # {}
+  /\ LET S0 == ManualInputs0(l, lo, hi)
+         S1 == Inputs1(l, S0)
+         E == UNION {EntsOf(files, g.no) : g \in S0 \cup S1}
+         small == SetMin(Live) IN
+     comp' = [on |-> TRUE, lvl |-> l, in0 |-> {g.no : g \in S0}, in1 |-> {g.no : g \in S1},
+              ver |-> cur, todo |-> MustKeep(E, l, small), outs |-> {}]
   /\ UNCHANGED <<nk, seq, hist, mem, imm, immOn, immDone, immWal, files, cur, pins, snaps, pending, disk,
                  nextFile, curWal, logWal, nextPin, gcDue>>
 
@@ -338,6 +361,7 @@ BgStep ==
   \/ ImmDrop
   \/ RemoveObsolete
   \/ \E l \in Levels : \E f \in LvlSet(cur, l) : CompactPick(l, f) \/ TrivialMove(l, f)
+  \/ \E l \in Levels : \E lo, hi \in Keys : CompactPickRange(l, lo, hi)
   \/ \E n \in 1..FileCap : CompactEmit(n)
   \/ CompactInstall
 
